@@ -45,8 +45,8 @@ Definition on_with_meta (n : onode) (m : meta) : onode :=
 
 (* node.remove(), orefafs_internal.go *)
 Definition on_remove (n : onode) : onode :=
-  let k := (on_nlink n - 1)%Z in
-  {| on_ch := []; on_data := if Z.eqb k 0 then [] else on_data n; on_nlink := k; on_id := on_id n;
+  let k := (on_nlink n - 1)%Z in      (* the data stay for the handles still open on the node *)
+  {| on_ch := []; on_data := on_data n; on_nlink := k; on_id := on_id n;
      on_meta := on_meta n |}.
 
 (* ---- the file system ------------------------------------------------------- *)
@@ -188,11 +188,7 @@ Definition o_mkdir (s : ofs) (name : str) (perm : N) : ofs * res :=
           | Some _ => (s, RFail EFileExists)
           | None =>
               match ofind s dir_name with
-              | None =>
-                  match o_up_loop (S (length dir_name)) s dir_name with
-                  | None => (s, RPanic)
-                  | Some n => (s, RFail (if on_dir n then ENoSuchDir else ENotADirectory))
-                  end
+              | None => (s, o_enf s abs_path (RFail ENoSuchDir))
               | Some (pi, pn) =>
                   if negb (on_dir pn) then (s, RFail ENotADirectory)
                   else (fst (o_create_dir s pi abs_path file_name perm), ROk)
@@ -210,6 +206,8 @@ Fixpoint o_missing (fuel : nat) (s : ofs) (dir_name : str) (ds : list str) : res
       match ofind s dir_name with
       | Some (i, n) => if on_dir n then inr (ds, i) else inl (RErrPath ENotADirectory dir_name)
       | None =>
+          if Nat.leb (length dir_name) (volume_name_len (o_os s) dir_name) then inl (RFail ENoSuchDir)   (* no such volume *)
+          else
           match osplit (o_os s) dir_name with
           | None => inl RPanic
           | Some (d, _) => o_missing f s d (ds ++ [dir_name])
@@ -265,7 +263,7 @@ Definition o_open_file (s : ofs) (name : str) (flag perm : N) : ofs * (res + han
             if has om OpenCreateExcl then (s, inl (RFail EFileExists))
             else
               let d1 := if has om OpenTruncate then [] else on_data cn in
-              let at_ := if has om OpenAppend then Z.of_nat (length d1) else 0%Z in
+              let at_ := 0%Z in       (* every new handle starts at offset 0, O_APPEND or not *)
               (o_with_heap s (oupd (o_heap s) c (on_with_data cn d1)), inr (new_handle c 0 name at_ om))
       end
   end.
@@ -527,7 +525,8 @@ Section OFileOps.
 
   Definition of_read (n : Z) : handle * res :=
     o_prologue EG_Closed (fun e => (f, RFail e)) (fun c nd =>
-      if on_dir nd then (f, RFail (if isw then EW_IncorrectFunc else EC_IsADirectory))
+      if Z.leb n 0 then (f, RBytes 0 [] None)            (* an empty buffer: (0, nil) at once *)
+      else if on_dir nd then (f, RFail (if isw then EW_IncorrectFunc else EC_IsADirectory))
       else if negb (has (hd_mode f) OpenRead) then (f, RFail EBadFileDesc)
       else
         let got := firstn (Z.to_nat n) (skipn (Z.to_nat (hd_at f)) (on_data nd)) in
@@ -536,9 +535,11 @@ Section OFileOps.
         else (o_set_at (hd_at f + k), RBytes k got None)).
 
   Definition of_read_at (n off : Z) : res :=
+    if Z.ltb off 0 then RFail EG_NegativeOffset          (* the offset, then the empty buffer, before the handle *)
+    else if Z.leb n 0 then RBytes 0 [] None
+    else
     o_prologue EG_Closed (fun e => RFail e) (fun c nd =>
       if on_dir nd then RFail (if isw then EW_IncorrectFunc else EC_IsADirectory)
-      else if Z.ltb off 0 then RFail EG_NegativeOffset
       else if negb (has (hd_mode f) OpenRead) then RFail EBadFileDesc
       else if Z.ltb (Z.of_nat (length (on_data nd))) off then RBytes 0 [] (Some EG_EOF)
       else
@@ -550,21 +551,21 @@ Section OFileOps.
     o_prologue EG_Closed (fun e => (s, f, RFail e)) (fun c nd =>
       if on_dir nd || negb (has (hd_mode f) OpenWrite)
       then (s, f, RFail (if isw then EW_AccessDenied else EC_BadFileDesc))
-      else
+      else match b with [] => (s, f, RInt 0) | _ =>       (* zero bytes: nothing changes *)
         let at_ := if has (hd_mode f) OpenAppend then Z.of_nat (length (on_data nd)) else hd_at f in
         let d' := write_at_data (on_data nd) (Z.to_nat at_) b in
         (o_with_heap s (oupd h c (on_with_data nd d')), o_set_at (at_ + Z.of_nat (length b)),
-         RInt (Z.of_nat (length b)))).
+         RInt (Z.of_nat (length b))) end).
 
   Definition of_write_at (b : list N) (off : Z) : ofs * res :=
     if Z.ltb off 0 then (s, RFail EG_NegativeOffset)
-    else
+    else match b with [] => (s, RInt 0) | _ =>            (* zero bytes: (0, nil) at once *)
       o_prologue EG_Closed (fun e => (s, RFail e)) (fun c nd =>
         if on_dir nd || negb (has (hd_mode f) OpenWrite)
         then (s, RFail (if isw then EW_AccessDenied else EC_BadFileDesc))
         else
           let d' := write_at_data (on_data nd) (Z.to_nat off) b in
-          (o_with_heap s (oupd h c (on_with_data nd d')), RInt (Z.of_nat (length b)))).
+          (o_with_heap s (oupd h c (on_with_data nd d')), RInt (Z.of_nat (length b)))) end.
 
   Definition of_seek (offset whence : Z) : handle * res :=
     o_prologue EG_Closed (fun e => (f, RFail e)) (fun c nd =>
